@@ -12,10 +12,11 @@
    581329c; the model was re-synchronised: `check p = [] -> wf p` holds of the tree as it is.  The witnesses of the
    defects stay as regression facts about `check_pinned`; checks/c04.py replays them on the real frontend on every run.
    Core (extended): indexed and field assignment, for-each, Wiederhole, do-while, list literals, verkettet, slicing.
-   Open: (a) a list of elements WITHOUT a type (`(foo) verkettet mit (foo)`, `eine Liste, die aus (foo) besteht`) is
-   accepted by /repo; the checker types of the model cannot express it, the model has the repaired behaviour and the
-   check judges such programs by the specification oracle only (known finding void_list); (b) the field-name lookup of
-   assigneable() rejects a well-formed program (C04_check_complete_refuted). *)
+   A fifth unsoundness defect found while widening the core (a list of elements WITHOUT a type, `(foo) verkettet mit
+   (foo)`, `eine Liste, die aus (foo) besteht`) was repaired by d293d7b; the model has exactly that behaviour.
+   One quirk of the tree is still mirrored by a switch (q_field_name_lookup, on in `current`): assigneable() looks
+   the field name of a field assignment up as a variable and so rejects a well-formed program
+   (C04_check_complete_refuted); a false rejection is not a C04 matter, the patch is models/c04_fix_6_*.patch. *)
 From Coq Require Import List Arith Bool.
 Import ListNotations.
 From DDP Require Import Lang.MiniSyntax Lang.MiniTyping Lang.MiniTypingProofs Lang.MiniCheck Lang.MiniGuard Lang.MiniCheckProofs
